@@ -164,6 +164,7 @@ type fecSender struct {
 	paws       uint32
 	lastTs     int64 // time of the previous encode (0 = none yet, as tsLatestPacket)
 	lastGap    int64 // gap between the last two encodes
+	broken     bool  // encode panicked in this case: the layout monitors are void for it
 }
 
 func fecNewSender(lg *fecLogger, d, p, hoff int, next uint32) *fecSender {
@@ -188,13 +189,34 @@ func (s *fecSender) encode(lg *fecLogger, payload []byte, gap time.Duration, rep
 	s.lastGap, s.lastTs = now-s.lastTs, now
 	expectID := s.enc.next
 	cntBefore := s.enc.shardCount
-	ps := s.enc.encode(b, maxFECEncodeLatency)
+	var ps [][]byte
+	panicked := false
+	func() {
+		defer func() {
+			if r := recover(); r != nil {
+				panicked = true
+			}
+		}()
+		ps = s.enc.encode(b, maxFECEncodeLatency)
+	}()
+	if panicked {
+		fecViolate(rep, "C07/encoder-panic", fmt.Sprintf("fecEncoder.encode panicked on a buffer of %d bytes (headerOffset %d)", len(b), s.hoff),
+			map[string]any{"d": s.d, "p": s.p, "hoff": s.hoff, "buf": hx(buf), "shardCount": cntBefore})
+		lg.printf("e %s %d %d > panic\n", hx(buf), now, maxFECEncodeLatency)
+		// the object is half-updated: start over with a fresh encoder at the next group boundary
+		next := (expectID/uint32(s.d+s.p) + 1) * uint32(s.d+s.p) % s.paws
+		s.enc = newFECEncoder(s.d, s.p, s.hoff)
+		s.enc.next = next
+		lg.printf("E %d %d %d %d\n", s.d, s.p, s.hoff, next)
+		s.broken = true
+		return append([]byte(nil), b[s.hoff:]...), nil
+	}
 	data = append([]byte(nil), b[s.hoff:]...)
 	for _, q := range ps {
 		parity = append(parity, append([]byte(nil), q[s.hoff:]...))
 	}
 	lg.printf("e %s %d %d > %s %s | %d %d %d\n", hx(buf), now, maxFECEncodeLatency, hx(data), fecHexList(parity), s.enc.next, s.enc.shardCount, s.enc.maxSize)
-	if mon {
+	if mon && !s.broken {
 		// layout monitor (property text / wire format): seqid, type, size field, payload verbatim
 		rep.Monitors["encoder-layout"]++
 		bad := ""
@@ -275,7 +297,7 @@ func (s *fecSender) group(lg *fecLogger, r *vrng, sizes []int, skip bool, rep *v
 			// encoder has seen "a packet at time 0": with d = 1 its very first group has no parity)
 			skip = s.lastGap >= maxFECEncodeLatency
 			g.skipped = skip
-			if mon {
+			if mon && !s.broken {
 				rep.Monitors["encoder-parity-shape"]++
 				mx := 0
 				for _, q := range g.pkts {
@@ -308,6 +330,7 @@ func (s *fecSender) group(lg *fecLogger, r *vrng, sizes []int, skip bool, rep *v
 // ------------------------------------------------------------------ receiver-side monitors (property text)
 
 type fecOrig struct {
+	ord      int // position of the group in the sender's order
 	payloads [][]byte
 	d        int
 	received map[uint32]bool
@@ -323,6 +346,7 @@ type fecMonitor struct {
 	trace  []string // arrival trace for replays
 	prop   string
 	missKey string // key of the "missing not recovered" alarm (names the case class)
+	newestOrd int // the most advanced group (sender order) of which a packet has arrived
 	recov  int // packets recovered (all of them checked to be originals)
 	demand int // data packets whose reconstruction the property demanded
 }
@@ -332,7 +356,7 @@ func fecNewMonitor(rep *vreport, prop string, d, p int) *fecMonitor {
 }
 
 func (m *fecMonitor) add(g *fecGroup, paws uint32) {
-	m.groups[g.base] = &fecOrig{payloads: g.payloads, d: m.d, received: map[uint32]bool{}, base: g.base, paws: paws}
+	m.groups[g.base] = &fecOrig{ord: len(m.groups) + 1, payloads: g.payloads, d: m.d, received: map[uint32]bool{}, base: g.base, paws: paws}
 }
 
 // strip the 2-byte size exactly as the session does; ok=false if the session would drop it
@@ -366,6 +390,10 @@ func (m *fecMonitor) observe(pkt []byte, rec [][]byte, retained bool) {
 	before := len(g.received)
 	g.received[seq] = true
 	after := len(g.received)
+	// "still among the few most recent groups": at most two groups behind the most advanced group
+	// seen so far (what the decoder keeps in every position of the id space, c07_wrap)
+	m.newestOrd = max(m.newestOrd, g.ord)
+	retained = retained && m.newestOrd-g.ord <= 2
 	// (1) recovered subset of originals of that group, exact bytes and lengths
 	m.rep.Monitors["only-originals"]++
 	var got [][]byte
@@ -610,7 +638,7 @@ func TestVerifC07(t *testing.T) {
 		orders := 3
 		logEvery := 1
 		if vThorough() {
-			bound, orders, logEvery = 9, 2, 6
+			bound, orders, logEvery = 9, 2, 10
 		}
 		bound = vEnvInt("VERIF_FEC_BOUND", bound)
 		id := 0
@@ -1438,7 +1466,7 @@ func TestVerifC05Fec(t *testing.T) {
 		for id := 1; id <= n; id++ {
 			c := cfgs[r.intn(len(cfgs))]
 			wellTyped := id%2 == 0
-			lg.on = wellTyped
+			lg.on = wellTyped && (!vThorough() || id%8 == 0)
 			fecCaseC05(lg, r, rep, id, c[0], c[1], wellTyped)
 		}
 		lg.on = true
